@@ -104,7 +104,9 @@ def collect(p, part, meta, barrier_token):
     """Collect partitions from partd, yield dataframes"""
     with ensure_cleanup_on_exception(p):
         res = p.get(part)
-        return res if len(res) > 0 else meta
+        # an output partition that received no rows is empty, also when the
+        # meta of the shuffled frame holds rows (value_counts of a categorical)
+        return res if len(res) > 0 else meta.iloc[:0]
 
 
 def set_partitions_pre(s, divisions, ascending=True, na_position="last"):
